@@ -72,6 +72,8 @@ def r_m(m):
 def classify(c):
     """stable key of a failing input: stream + type family + failure shape (no data values)"""
     why = c.get("why", "")
+    if c.get("display_panic"):
+        return "display:panic:%s" % c["display_panic"]
     fam = c.get("kind") or c.get("kinds") or (str(c.get("from", "")) + "->" + str(c.get("to", "")))
     if why.startswith("PANIC"):
         shape = "panic"
